@@ -24,7 +24,7 @@ def sz(ctx, quick, thorough):
 def _finish(name, lines, descr, io, mo, diffs, dt, rule, nontrivial, dist=None, keep=30):
     # keep the disagreements in the outcome itself (value / error class) first: those are the ones a functional property prescribes
     diffs = sorted(diffs, key=lambda i: 0 if io[i].split(' ;;')[0] != mo[i].split(' ;;')[0] else 1)
-    dis = [{'input': descr[i], 'line': lines[i][:2000], 'impl': io[i][:1500], 'model': mo[i][:1500]} for i in diffs[:keep]]
+    dis = [{'input': descr[i], 'line': lines[i][:20000], 'impl': io[i][:1500], 'model': mo[i][:1500]} for i in diffs[:keep]]
     unm = collections.Counter(m.split(' ')[1] if ' ' in m else m for m in mo if m.startswith('U '))
     distinct = len({lines[i] for i in nontrivial})
     step = max(1, len(lines) // 5)
